@@ -100,6 +100,10 @@ TRANSPARENT_DECORATORS = {
     'contextlib.contextmanager', 'typing.overload', 'typing.final',
     'typing.no_type_check', 'abc.abstractmethod', 'functools.wraps',
 }
+# decorators that replace the function by a dispatcher the analysis has no
+# model for: calling the decorated name is undecidable
+DISPATCHING_DECORATORS = {'functools.singledispatch',
+                          'functools.singledispatchmethod'}
 CACHING_DECORATORS = {
     'functools.lru_cache', 'functools.cache', 'functools.cached_property',
 }
@@ -524,6 +528,9 @@ def dispatch_call(interp, callee, args, kwargs, state, node):
 
 def generic_ext_call(interp, callee, args, kwargs, state, node):
     path = callee.path
+    if path == 'builtins.object' and not args and not kwargs:
+        # a sentinel: one object per creation site, identical to itself only
+        return Sym('newobject', interp.site(node))
     if path in ('builtins.repr', 'builtins.ascii') and args:
         repr_of_caught(interp, args[0], node)
     if _i().exc_name(callee) in _i()._EXC_PARENT:
@@ -608,6 +615,9 @@ def _b_len(interp, args, kwargs, state, node):
                               'dict'}:
         interp.raise_pending(state, E('builtins.TypeError'), node,
                              'len() of a value that may have no length')
+        if isinstance(x, Sym):
+            # where len() succeeded the value is not None
+            state.kn.assume(T.compare('isnot', x, None))
     return T.length(x)
 
 
@@ -713,6 +723,20 @@ def _b_vars(interp, args, kwargs, state, node):
         return interp.alloc(state, _i().DictObj(
             items, origin=interp.site(node)))
     return Sym('extcall', 'builtins.vars', tuple(_t(a) for a in args), ())
+
+
+def _dc_replace(interp, args, kwargs, state, node):
+    """dataclasses.replace(obj, **changes): a new instance of the same
+    class with the named fields changed."""
+    if len(args) == 1 and isinstance(args[0], Ref):
+        o = interp.obj(state, args[0])
+        if o.kind == 'inst' and interp._dataclass_fields(o.cls) is not None \
+                and all(k in o.attrs for k in kwargs):
+            attrs = dict(o.attrs)
+            attrs.update(kwargs)
+            return interp.alloc(state, _i().InstObj(
+                o.cls, attrs, origin=interp.site(node)))
+    raise _i().Unsupported('dataclasses.replace at ' + interp.site(node))
 
 
 def _b_hasattr(interp, args, kwargs, state, node):
@@ -1687,7 +1711,7 @@ _EXT_CALLS = {
     'builtins.len': _b_len, 'builtins.isinstance': _b_isinstance,
     'builtins.getattr': _b_getattr, 'builtins.setattr': _b_setattr,
     'builtins.hasattr': _b_hasattr, 'builtins.int': _b_int,
-    'builtins.vars': _b_vars,
+    'builtins.vars': _b_vars, 'dataclasses.replace': _dc_replace,
     'builtins.bool': _b_bool, 'builtins.str': _b_str,
     'builtins.float': _b_float, 'builtins.bytes': _b_bytes,
     'builtins.bytearray': _b_bytearray, 'builtins.sorted': _b_sorted,
@@ -1762,6 +1786,13 @@ def call_method(interp, recv, name, args, kwargs, state, node):
             return E('re.Match') if m is not None else None
         return Sym('regex', name, recv.pattern, recv.flags,
                    tuple(_t(a) for a in args))
+    if isinstance(recv, ClassInfo) and name == '_make' and \
+            interp._namedtuple_fields(recv) is not None and len(args) == 1:
+        seq = static_sequence(interp, args[0], state)
+        if seq is None:
+            raise _i().Unsupported('%s._make of a run-time iterable at %s' %
+                                   (recv.short, interp.site(node)))
+        return interp.instantiate(recv, list(seq), {}, state, node)
     if isinstance(recv, ClassInfo) and name == '__subclasses__':
         subs = [c for c in interp.prog.classes.values()
                 if any(b is recv for b in c.bases)]
@@ -1944,8 +1975,8 @@ def call_container_method(interp, ref, name, args, kwargs, state, node):
         if name == 'get':
             k = args[0]
             dflt = args[1] if len(args) > 1 else None
-            if T.is_const(k) and not o.more and \
-                    all(T.is_const(kk) for kk, _ in o.items):
+            if _key_const(k) and not o.more and \
+                    all(_key_const(kk) for kk, _ in o.items):
                 v = o.get(k)
                 return dflt if v is _i().ABSENT else v
             if not o.more and o.items and isinstance(k, Sym) and all(
@@ -2080,6 +2111,19 @@ def static_sequence(interp, v, state):
                 for i in range(len(v))]
     if isinstance(v, frozenset):
         return sorted(v, key=repr)
+    if isinstance(v, ClassInfo) and interp.prog.enum_kind(v):
+        # iterating an enumeration class: its members in definition order
+        # (aliases - members with a value seen before - are skipped)
+        out, seen_vals = [], []
+        for nm in v.order:
+            if not interp.prog.enum_member(v, nm):
+                continue
+            val = interp.class_attr_own(v, nm)
+            if any(_i().same_value(val, x) for x in seen_vals):
+                continue
+            seen_vals.append(val)
+            out.append(Sym('enummember', v.qualname, nm, _t(val)))
+        return out
     return None
 
 
@@ -2138,6 +2182,13 @@ def _namedtuple_values(interp, ref, state):
     return None if any(v is ABSENT for v in vals) else vals
 
 
+def _key_const(k):
+    """A dictionary key whose identity is known: a constant, or a class /
+    function of the package (compared by identity)."""
+    return (T.is_const(k) and not isinstance(k, Sym)) or \
+        isinstance(k, (ClassInfo, FuncInfo))
+
+
 def get_item(interp, base, k, state, node):
     ABSENT = _i().ABSENT
     ntv = _namedtuple_values(interp, base, state)
@@ -2147,7 +2198,7 @@ def get_item(interp, base, k, state, node):
     if isinstance(base, Ref):
         o = interp.obj(state, base)
         if o.kind == 'dict':
-            if T.is_const(k) and all(T.is_const(kk) for kk, _ in o.items):
+            if _key_const(k) and all(_key_const(kk) for kk, _ in o.items):
                 v = o.get(k)
                 if v is not ABSENT:
                     return v
